@@ -335,8 +335,37 @@ fn send_best_move_to_gui(board: &BoardState) {
 }
 
 pub fn send_to_gui(message: &str) {
+    #[cfg(walleye_verif)]
+    if crate::utils::verif::capture_line(message) {
+        return;
+    }
     println!("{}", message);
     info!("ENGINE >> {}", message);
+}
+
+// Verification hooks: public entry points to the private protocol helpers
+#[cfg(walleye_verif)]
+pub fn verif_play_out_position(
+    commands: &[&str],
+    zobrist_hasher: &ZobristHasher,
+    draw_table: &mut DrawTable,
+) -> BoardState {
+    play_out_position(commands, zobrist_hasher, draw_table)
+}
+
+#[cfg(walleye_verif)]
+pub fn verif_make_move(board: &mut BoardState, player_move: &str, zobrist_hasher: &ZobristHasher) {
+    make_move(board, player_move, zobrist_hasher)
+}
+
+#[cfg(walleye_verif)]
+pub fn verif_parse_go_command(commands: &[&str]) -> GameTime {
+    parse_go_command(commands)
+}
+
+#[cfg(walleye_verif)]
+pub fn verif_send_best_move_to_gui(board: &BoardState) {
+    send_best_move_to_gui(board)
 }
 
 pub fn read_from_gui() -> String {
